@@ -6,6 +6,7 @@ package c17
 // model ever learn to carry such a statement, once it round-trips).
 
 import (
+	"fmt"
 	"strings"
 	"testing"
 
@@ -14,23 +15,62 @@ import (
 	"github.com/lindb/lindb/verifharness/sim/ev"
 )
 
+// softFailer turns Fatalf into a panic the caller recovers (used to see whether a listed known
+// finding still reproduces without failing the run).
+type softFailer struct{}
+type softFailure string
+
+func (softFailer) Fatalf(format string, args ...any) {
+	panic(softFailure(fmt.Sprintf(format, args...)))
+}
+
+func violates(text string) (msg string) {
+	defer func() {
+		if r := recover(); r != nil {
+			if sf, ok := r.(softFailure); ok {
+				msg = string(sf)
+				return
+			}
+			panic(r)
+		}
+	}()
+	s, err := sql.Parse(text)
+	if err != nil {
+		return ""
+	}
+	if q, ok := s.(*stmt.Query); ok {
+		checkQueryWire(softFailer{}, "sql: "+text, q)
+	}
+	return ""
+}
+
 func acceptedImpliesWire(t *testing.T, sig string, texts ...string) {
 	t.Helper()
 	if ev.Known(sig) {
-		ev.KnownFinding("C17", sig+": sql.Parse accepts a statement whose JSON form the receiving node cannot decode / decodes differently")
-		t.Skipf("listed in known_findings.json: %s", sig)
+		// listed in known_findings.json: report it if it still reproduces, never fail
+		for _, text := range texts {
+			if msg := violates(text); msg != "" {
+				ev.KnownFinding("C17", fmt.Sprintf("%s: sql.Parse accepts %.60q but the statement does not survive the wire", sig, text))
+				return
+			}
+		}
+		t.Logf("known finding %s does not reproduce any more", sig)
+		return
 	}
 	for _, text := range texts {
-		s, err := sql.Parse(text)
-		if err != nil {
-			t.Logf("rejected (fine): %.80s: %v", text, err)
-			continue
-		}
-		q, ok := s.(*stmt.Query)
-		if !ok {
-			t.Fatalf("%T for %s", s, text)
-		}
-		checkQueryWire(t, "sql: "+text, q)
+		text := text
+		t.Run("", func(t *testing.T) {
+			s, err := sql.Parse(text)
+			if err != nil {
+				t.Logf("rejected (fine): %.80s: %v", text, err)
+				return
+			}
+			q, ok := s.(*stmt.Query)
+			if !ok {
+				t.Fatalf("%T for %s", s, text)
+			}
+			checkQueryWire(t, "sql: "+text, q)
+		})
 	}
 }
 
@@ -42,6 +82,7 @@ func acceptedImpliesWire(t *testing.T, sig string, texts ...string) {
 // which contains "" because of the empty alias).
 func TestRegression_NilOperand(t *testing.T) {
 	acceptedImpliesWire(t, sigNilOperand,
+		`select (*) from m`, // found by FuzzParse within 3 s
 		`select f+1h from m`,
 		`select 1h+f from m`,
 		`select f, (*) from m`,
